@@ -22,6 +22,9 @@ How the Python is mirrored
   the `W` property re-assembles them by concatenation: `stored`;
 * `modules[k].W`, `modules[k].weight_sample_counter_` are projections of the
   fused state (`chanState`); the sample counter lives on the FusionART object;
+  `modsStep` / `modsRun` are the same training loop written on the module lists, the
+  way the code runs it (`W` property, `add_weight`, `set_weight`) — proved to be these
+  projections in `ArtProofs/Fusion.lean`;
 * `predict(X, skip_channels)` normalises negative indices once (`normIdx`);
   `predict_regression` normalises, calls `predict` (which normalises again) and
   indexes its list of centres **by channel number** in the multi-target branch,
@@ -162,6 +165,42 @@ def chanState (ws : List Nat) (k : Nat) (s : ArtState (List α)) : ModState α :
 def fusedW (mods : List (ModState α)) : List (List α) :=
   (List.range ((mods.head?.map (·.W.length)).getD 0)).map
     (fun i => (mods.map (fun m => m.W.getD i [])).flatten)
+
+/-! #### the same step on the module lists themselves
+
+`FusionART` keeps no fused list: `step_fit` reads `self.W` (re-assembled from the modules on
+every access) and writes through `add_weight` / `set_weight`, which hand every module its slice.
+`modsStep` is that step on the list of module states; `ArtProofs/Fusion.lean` shows that it is
+the projection of `stepFit (fusionKernel chans)`. -/
+
+/-- `FusionART.add_weight(new_w)` -/
+def modsAdd (wls : List Nat) (mods : List (ModState α)) (w : List α) : List (ModState α) :=
+  List.zipWith (fun m wk => ⟨m.W ++ [wk], m.cnt ++ [1]⟩) mods (splitBy wls w)
+
+/-- `FusionART.set_weight(idx, new_w)` -/
+def modsSet (wls : List Nat) (mods : List (ModState α)) (c : Nat) (w : List α) : List (ModState α) :=
+  List.zipWith (fun m wk => ⟨m.W.set c wk, m.cnt.set c (m.cnt.getD c 0 + 1)⟩) mods (splitBy wls w)
+
+/-- `BaseART.step_fit` as executed by a FusionART, on the module states -/
+def modsStep {θ : Type} [LT α] [DecidableRel (α := α) (· < ·)] (chans : List (Chan α))
+    (cfg : SearchCfg (List α) θ) (th0 : θ) (veto : Nat → Bool) (mods : List (ModState α)) (x : List α) :
+    List (ModState α) × Nat :=
+  let W := fusedW mods
+  if W.isEmpty then (modsAdd (wlens chans) mods (rawNew chans x), 0)
+  else
+    match (stepSearch (fusionKernel chans) cfg th0 veto W x).winner with
+    | some c => (modsSet (wlens chans) mods c (rawUpdate chans x (W.getD c [])), c)
+    | none => (modsAdd (wlens chans) mods (rawNew chans x), W.length)
+
+/-- `partial_fit` on the module states (reset function = a function of sample and category):
+returns the module states and the labels -/
+def modsRun {θ : Type} [LT α] [DecidableRel (α := α) (· < ·)] (chans : List (Chan α))
+    (cfg : SearchCfg (List α) θ) (th0 : θ) (veto : List α → Nat → Bool) :
+    List (ModState α) × List Nat → List (List α) → List (ModState α) × List Nat
+  | acc, [] => acc
+  | acc, x :: xs =>
+    modsRun chans cfg th0 veto
+      ((modsStep chans cfg th0 (veto x) acc.1 x).1, acc.2 ++ [(modsStep chans cfg th0 (veto x) acc.1 x).2]) xs
 
 end Kernel
 
